@@ -342,7 +342,7 @@ def configs(ctx):
     out.append(("two-instances", dict(sid=sid, advs=(None, "next"), menu=two, controls=(), deviations=0, fine=0, two_instances=True),
                 CLOSURE))
     both = [("C1", n, e) for n in ("sub-a2", "stop-a") for e in ("n", "r", "m", "M")]
-    out.append(("C1-both-channels", dict(sid=sid, advs=(None, "next"), menu=both, controls=(), deviations=0, fine=0), CLOSURE))
+    out.append(("C1-both-channels", dict(sid=sid, advs=(None, "next"), menu=both, controls=(), deviations=1, fine=0), CLOSURE))
     uf = [("C1", n, e) for n in ("sub-a2", "stop-a", "sub-c2") for e in ("n", "r", "nu", "ru")]
     out.append(("C1-unicast-flag-clear", dict(sid=sid, advs=(None, "next"), menu=uf, controls=(), deviations=0, fine=0), CLOSURE))
     alias = [(c, n, "n") for c in ("C1", "C5", "C3", "C4") for n in ("sub-a2", "stop-a")] + [("C3", "sub-a2", "r"), ("C5", "stop-a", "r")]
